@@ -394,10 +394,10 @@ end ctors
 /-! ### Iterators held in registers: `Drain`, `IntoIter` -/
 
 /-- a `Drain` over a vector with storage: the invariant holds from creation -/
-theorem drain_create_inv (X : Ctx) (s : St) (es : List Elem) (b1 b2 : Bound) (st en : Nat)
+theorem drain_create_inv' (X : Ctx) (s : St) (es : List Elem) (b1 b2 : Bound) (st en : Nat)
     (h : Abs X s.v es) (hd : s.v.isDefault = false) (hr : resolve b1 b2 es.length = some (st, en)) :
     ∃ d, Drain.create X b1 b2 s = (.ok d, { s with v := { s.v with len := st } }) ∧
-      DrainInv X { s.v with len := st } es st en d := by
+      DrainInv X { s.v with len := st } es st en d ∧ d.pos = st ∧ d.stop = en := by
   obtain ⟨b, hb, hl, hs, hlc, hel, hinit⟩ := h.alloc hd
   obtain ⟨_, _, hse, hel'⟩ := (C11_resolve_iff b1 b2 es.length st en).mp hr
   have hv : ({ ({ s.v with len := st } : VSt) with len := es.length } : VSt) = s.v := by
@@ -422,8 +422,16 @@ theorem drain_create_inv (X : Ctx) (s : St) (es : List Elem) (b1 b2 : Bound) (st
     simp only [VM.bind_run, h1, DPtr.isNull, Bool.false_eq_true, if_false, VM.ite_run]
     unfold VM.inb VM.blockAt
     simp [hb, hal, hen]
-  · exact { hd := hd, len := rfl, full := by simp only; rw [hv]; exact h, ptr := rfl, lo := Nat.le_refl _, mid := hse,
+  · refine ⟨?_, rfl, rfl⟩
+    exact { hd := hd, len := rfl, full := by simp only; rw [hv]; exact h, ptr := rfl, lo := Nat.le_refl _, mid := hse,
             hi := Nat.le_refl _, tp := rfl, tl := rfl, en_le := hel' }
+
+theorem drain_create_inv (X : Ctx) (s : St) (es : List Elem) (b1 b2 : Bound) (st en : Nat)
+    (h : Abs X s.v es) (hd : s.v.isDefault = false) (hr : resolve b1 b2 es.length = some (st, en)) :
+    ∃ d, Drain.create X b1 b2 s = (.ok d, { s with v := { s.v with len := st } }) ∧
+      DrainInv X { s.v with len := st } es st en d := by
+  obtain ⟨d, h1, h2, _⟩ := drain_create_inv' X s es b1 b2 st en h hd hr
+  exact ⟨d, h1, h2⟩
 
 /-- outside the documented limits `drain` panics before anything is touched -/
 theorem drain_create_err (X : Ctx) (s : St) (es : List Elem) (b1 b2 : Bound) (h : Abs X s.v es)
@@ -506,9 +514,10 @@ theorem into_reg_step (X : Ctx) (v : VSt) (it : IntoIterSt) (sys : Sys) (back : 
       unfold IntoIter.next_back; simp only [if_true, VM.bind_run, e1, VM.pure_run]
 
 /-- dropping a `Splice` whose draining half satisfies the invariant -/
-theorem splice_drop_inv (X : Ctx) (hq : ∀ k, X.o.panicAt k = false) (sp : SpliceSt) (s : St) (es : List Elem) (st en : Nat)
+theorem splice_drop_inv' (X : Ctx) (hq : ∀ k, X.o.panicAt k = false) (sp : SpliceSt) (s : St) (es : List Elem) (st en : Nat)
     (hinv : DrainInv X s.v es st en sp.d) :
-    (∃ s2 new, Splice.drop X sp s = (.ok (), s2) ∧ Abs X s2.v (es.take st ++ new ++ es.drop en)) ∨
+    (∃ s2 new, Splice.drop X sp s = (.ok (), s2) ∧ Abs X s2.v (es.take st ++ new ++ es.drop en) ∧
+        new.map (·.val) = takeSome sp.fill) ∨
     (∃ p s2 cur, Splice.drop X sp s = (.error p, s2) ∧ Panic.benign p = true ∧ Abs X s2.v cur) := by
   have hse : st ≤ en := by have := hinv.lo; have := hinv.mid; have := hinv.hi; omega
   have h1 := splice_dropLoop_run X hq (sp.d.stop - sp.d.pos) (sp.d.stop - sp.d.pos + 1) sp s es st en hinv rfl (by omega)
@@ -531,14 +540,22 @@ theorem splice_drop_inv (X : Ctx) (hq : ∀ k, X.o.panicAt k = false) (sp : Spli
     unfold Splice.guardBody
     simp only [VM.bind_run, hdr, hdf, Bool.false_eq_true, if_false]
   rw [hdrop]
-  rcases hrf with ⟨s3, new, hr3, habs3, _⟩ | ⟨p, s3, cur, hr3, hbn, hab⟩
-  · exact .inl ⟨s3, new, hr3, habs3⟩
+  rcases hrf with ⟨s3, new, hr3, habs3, hv3⟩ | ⟨p, s3, cur, hr3, hbn, hab⟩
+  · exact .inl ⟨s3, new, hr3, habs3, hv3⟩
   · exact .inr ⟨p, s3, cur, hr3, hbn, hab⟩
 
+theorem splice_drop_inv (X : Ctx) (hq : ∀ k, X.o.panicAt k = false) (sp : SpliceSt) (s : St) (es : List Elem) (st en : Nat)
+    (hinv : DrainInv X s.v es st en sp.d) :
+    (∃ s2 new, Splice.drop X sp s = (.ok (), s2) ∧ Abs X s2.v (es.take st ++ new ++ es.drop en)) ∨
+    (∃ p s2 cur, Splice.drop X sp s = (.error p, s2) ∧ Panic.benign p = true ∧ Abs X s2.v cur) := by
+  rcases splice_drop_inv' X hq sp s es st en hinv with ⟨s2, new, h1, h2, _⟩ | h
+  · exact .inl ⟨s2, new, h1, h2⟩
+  · exact .inr h
+
 /-- dropping a `Splice` over a never-allocated vector: the replacement is pushed -/
-theorem splice_drop_default (X : Ctx) (hq : ∀ k, X.o.panicAt k = false) (sp : SpliceSt) (s : St) (h : Abs X s.v [])
+theorem splice_drop_default' (X : Ctx) (hq : ∀ k, X.o.panicAt k = false) (sp : SpliceSt) (s : St) (h : Abs X s.v [])
     (hd : s.v.isDefault = true) (hge : sp.d.pos ≥ sp.d.stop) :
-    (∃ s2 new, Splice.drop X sp s = (.ok (), s2) ∧ Abs X s2.v new) ∨
+    (∃ s2 new, Splice.drop X sp s = (.ok (), s2) ∧ Abs X s2.v new ∧ new.map (·.val) = takeSome sp.fill) ∨
     (∃ p s2 cur, Splice.drop X sp s = (.error p, s2) ∧ Panic.benign p = true ∧ Abs X s2.v cur) := by
   have hn := (drain_next_none sp.d s hge).1
   have hdl : Splice.dropLoop X (sp.d.stop - sp.d.pos + 1) sp s = (.ok sp, s) := by
@@ -560,11 +577,19 @@ theorem splice_drop_default (X : Ctx) (hq : ∀ k, X.o.panicAt k = false) (sp : 
     simp only [VM.bind_run, hdr, hdf, if_true]
   rw [hdrop]
   simp only [VM.bind_run]
-  rcases forIter_push_spec X hq sp.fill (sp.fill.length + 1) s [] (by omega) h with ⟨s', new, hrun', habs, _⟩ | ⟨p, s', acc, hrun', hb, habs⟩
+  rcases forIter_push_spec X hq sp.fill (sp.fill.length + 1) s [] (by omega) h with ⟨s', new, hrun', habs, hv⟩ | ⟨p, s', acc, hrun', hb, habs⟩
   · rw [hrun']
-    exact .inl ⟨s', new, rfl, by simpa using habs⟩
+    exact .inl ⟨s', new, rfl, by simpa using habs, hv⟩
   · rw [hrun']
     exact .inr ⟨p, s', acc, rfl, hb, habs⟩
+
+theorem splice_drop_default (X : Ctx) (hq : ∀ k, X.o.panicAt k = false) (sp : SpliceSt) (s : St) (h : Abs X s.v [])
+    (hd : s.v.isDefault = true) (hge : sp.d.pos ≥ sp.d.stop) :
+    (∃ s2 new, Splice.drop X sp s = (.ok (), s2) ∧ Abs X s2.v new) ∨
+    (∃ p s2 cur, Splice.drop X sp s = (.error p, s2) ∧ Panic.benign p = true ∧ Abs X s2.v cur) := by
+  rcases splice_drop_default' X hq sp s h hd hge with ⟨s2, new, h1, h2, _⟩ | h'
+  · exact .inl ⟨s2, new, h1, h2⟩
+  · exact .inr h'
 
 /-- outside the documented limits `splice` panics before anything is touched -/
 theorem splice_create_err (X : Ctx) (s : St) (es : List Elem) (b1 b2 : Bound) (fill : Vec.IterScript) (h : Abs X s.v es)
